@@ -37,11 +37,11 @@ def verify_writer(reg, fn, contract, label=None):
             req = contract.requires(ctx, value)
             if req is not True:
                 ctx.assume(req)
-            res.info = {"value": value}
+            res.replayer = writer_replayer(fn, contract, value)
             it = make_interp(ctx, reg, exclude=fn)
             out = run_body(it, fn, [sink, value])
             exp = contract.expect(ctx, value)
-            name = f"{unit}/path{len(res.obligations)}"
+            n0 = len(res.obligations)
             if exp[0] == "raise":
                 ok = out.kind == "raise" and out.exc is exp[1]
                 path_obligation(res, ctx, f"{unit}/raises-{exc_name(exp[1])}", z3.BoolVal(ok),
@@ -79,6 +79,7 @@ def verify_reader(reg, fn, contract, extra_args=(), label=None):
         v = domains.generic(ctx, d if not contract.maxbytes else ("uv", 128 ** contract.maxbytes), "v")
         tail = ctx.bytes_const("tail")
         src = Source(ctx, [Enc(d, v), Raw(tail)])
+        res.replayer = reader_replayer(fn, "match", contract, [Enc(d, v), Raw(tail)], v, extra_args=extra_args)
         it = make_interp(ctx, reg, exclude=fn)
         out = run_body(it, fn, [src, *extra_args])
         if out.kind != "return":
@@ -106,6 +107,8 @@ def verify_reader(reg, fn, contract, extra_args=(), label=None):
         def run_n(ctx, res=res):
             tail = ctx.bytes_const("tail")
             src = Source(ctx, [Enc(sib, None), Raw(tail)])
+            res.replayer = reader_replayer(fn, "null", contract, [Enc(sib, None), Raw(tail)], None,
+                                           extra_args=extra_args)
             it = make_interp(ctx, reg, exclude=fn)
             out = run_body(it, fn, [src, *extra_args])
             path_obligation(res, ctx, f"{unit}/raises-UnexpectedNull",
@@ -129,6 +132,7 @@ def verify_reader(reg, fn, contract, extra_args=(), label=None):
         cut = ctx.int_const("cut", 0)
         ctx.assume(cut < zint(enc.length()))
         src = Source(ctx, [enc], avail=cut)
+        res.replayer = reader_replayer(fn, "trunc", contract, [enc], v, cut=cut, extra_args=extra_args)
         it = make_interp(ctx, reg, exclude=fn)
         out = run_body(it, fn, [src, *extra_args])
         path_obligation(res, ctx, f"{unit}/raises-BufferUnderflow",
@@ -147,6 +151,7 @@ def verify_reader(reg, fn, contract, extra_args=(), label=None):
         r = ctx.bytes_const("input")
         src = Source(ctx, [Raw(r)])
         src.general = True
+        res.replayer = general_replayer(fn, contract, allowed + (ValueError, OverflowError), extra_args=extra_args)
         it = make_interp(ctx, reg, exclude=fn)
         out = run_body(it, fn, [src, *extra_args])
         if out.kind == "raise":
@@ -209,6 +214,12 @@ def in_python_domain(ctx, d, v, contract=None):
         return isinstance(v, uuid.UUID) or (isinstance(v, SOpaque) and v.kind == "uuid")
     if k == "errcode":
         return isinstance(v, SOpaque) and v.kind == "enum:ErrorCode" or type(v).__name__ == "ErrorCode"
+    if k == "td":
+        return isinstance(v, SOpaque) and v.kind == "timedelta" or type(v).__name__ == "timedelta"
+    if k == "ts":
+        if isinstance(v, SOpaque) and v.kind == "datetime":
+            return z3.And(v.t >= 0, v.t % 1000 == 0)
+        return False
     if k in ("carr", "larr"):
         if isinstance(v, SOpt):
             v = v.val
@@ -370,3 +381,142 @@ def verify_arrays():
             continue
         results += verify_reader(reg, closure, c, label=f"{factory.__name__}[item]")
     return results
+
+
+# ------------------------------------------------------------------------------ replay on the real code
+def small_model(ob):
+    """prefer a model with short strings / byte strings / sequences (re-solve with size bounds)"""
+    from kvc.core import blen as _blen, ulen as _ulen, Bsort, Ssort
+    s = z3.Solver()
+    s.set("timeout", 5000)
+    for f in opaque.literal_facts():
+        s.add(f)
+    for p in ob.pc:
+        s.add(p)
+    goal = ob.goal if z3.is_expr(ob.goal) else z3.BoolVal(bool(ob.goal))
+    s.add(z3.Not(goal))
+    consts = set()
+
+    def walk(e, seen=set()):
+        if e.get_id() in seen:
+            return
+        seen.add(e.get_id())
+        if z3.is_const(e) and e.decl().kind() == z3.Z3_OP_UNINTERPRETED:
+            consts.add(e)
+        for c in e.children():
+            walk(c, seen)
+    for p in ob.pc:
+        walk(p)
+    walk(goal)
+    s.push()
+    for c in consts:
+        if c.sort() == Bsort:
+            s.add(_blen(c) <= 40)
+        elif c.sort() == Ssort:
+            s.add(_ulen(c) <= 40)
+        elif z3.is_int(c) and (str(c).endswith("_n")):
+            s.add(c <= 3)
+    if s.check() == z3.sat:
+        return s.model()
+    s.pop()
+    return ob.model
+
+
+def native_outcome(thunk):
+    try:
+        return ("return", thunk())
+    except BaseException as ex:     # noqa: BLE001 - the class is the observation
+        return ("raise", type(ex))
+
+
+def writer_replayer(fn, contract, value):
+    def replay(ob):
+        import io
+        conc = domains.Concretiser(small_model(ob))
+        v = conc.value(value)
+        buf = io.BytesIO()
+        kind, res = native_outcome(lambda: fn(buf, v))
+        observed = {"outcome": kind, "exception": exc_name(res) if kind == "raise" else None,
+                    "bytes": buf.getvalue().hex()}
+        exp = contract.expect(Ctx(), v)
+        if exp[0] == "raise":
+            expected = {"outcome": "raise", "exception": exc_name(exp[1]), "bytes": ""}
+        else:
+            expected = {"outcome": "return", "exception": None,
+                        "bytes": kafka.concrete(contract.desc(v), v).hex()}
+        return {"confirmed": observed != expected, "function": f"{fn.__module__}:{fn.__qualname__}",
+                "input": repr(v)[:400], "expected": expected, "observed": observed,
+                "witness_class": classify_witness(v)}
+    return replay
+
+
+def classify_witness(v):
+    import datetime
+    if isinstance(v, datetime.timedelta):
+        ms = v // datetime.timedelta(milliseconds=1)
+        return "duration beyond 2^53 ms" if abs(ms) > 2 ** 53 else "duration"
+    return None
+
+
+def reader_replayer(fn, mode, contract, segs, value, cut=None, extra_args=(), allowed=()):
+    def replay(ob):
+        import io
+        conc = domains.Concretiser(small_model(ob))
+        data = conc.segs([s for s in segs])
+        enc_len = None
+        if mode in ("match", "null"):
+            enc_len = len(conc.segs(segs[:1]))
+        if cut is not None:
+            data = data[:conc.int_(cut)]
+        buf = io.BytesIO(data)
+        kind, res = native_outcome(lambda: fn(buf, *extra_args))
+        observed = {"outcome": kind, "value": repr(res)[:300] if kind == "return" else None,
+                    "exception": exc_name(res) if kind == "raise" else None, "position": buf.tell()}
+        if mode == "match":
+            v = conc.value(value)
+            ok = kind == "return" and res == v and type(res) is type(v) and buf.tell() == enc_len
+            expected = {"outcome": "return", "value": repr(v)[:300], "position": enc_len}
+        elif mode == "null":
+            from kio.serial.errors import UnexpectedNull
+            ok = kind == "raise" and res is UnexpectedNull
+            expected = {"outcome": "raise", "exception": "UnexpectedNull"}
+        else:
+            from kio.serial.errors import BufferUnderflow
+            ok = kind == "raise" and res is BufferUnderflow
+            expected = {"outcome": "raise", "exception": "BufferUnderflow"}
+        return {"confirmed": not ok, "function": f"{fn.__module__}:{getattr(fn, '__qualname__', fn)}",
+                "input_bytes": data.hex()[:600], "input_len": len(data), "expected": expected, "observed": observed}
+    return replay
+
+
+def general_replayer(fn, contract, allowed, extra_args=(), samples=3000):
+    """no model can describe arbitrary bytes usefully: search natively for a witness of the
+    failed clause (bounded; a miss leaves the obligation failed without an input)"""
+    def replay(ob):
+        import io
+        import random
+        rnd = random.Random(int(__import__("os").environ.get("VERIF_SEED", "0") or 0))
+        for i in range(samples):
+            n = rnd.choice((0, 1, 2, 3, 4, 5, 8, 9, 16, 17, 24))
+            data = bytes(rnd.choice((0, 1, 2, 0x7F, 0x80, 0x81, 0xFF, rnd.randrange(256))) for _ in range(n))
+            buf = io.BytesIO(data)
+            kind, res = native_outcome(lambda: fn(buf, *extra_args))
+            bad = (kind == "raise" and not any(res is a or (isinstance(res, type) and issubclass(res, a)) for a in allowed)) \
+                or buf.tell() > len(data)
+            if bad:
+                return {"confirmed": True, "function": f"{fn.__module__}:{getattr(fn, '__qualname__', fn)}",
+                        "input_bytes": data.hex(), "expected": "one of " + ", ".join(exc_name(a) for a in allowed),
+                        "observed": {"outcome": kind, "exception": exc_name(res) if kind == "raise" else None}}
+        return {"confirmed": None, "note": f"no failing input among {samples} sampled byte strings"}
+    return replay
+
+
+def verify_tz_aware(reg):
+    import kio.serial.readers as R
+    fn = R.tz_aware_from_i64
+    contract = reg.lookup(fn)
+
+    def make(ctx):
+        ts = SInt(ctx.int_const("timestamp", -(2 ** 63), 2 ** 63 - 1))
+        return [ts], [ts], [], {"timestamp": ts}
+    return verify_refines(reg, fn, contract, make, "L1/reader/tz_aware_from_i64/refines-contract")
